@@ -3,7 +3,7 @@ CONSTANTS MaxEdits = 3
  CfgIds = {"default", "sha256only", "crc"}
  UseCache = TRUE
  Flaw_Concat = TRUE
- Flaw_FgUnchanged = TRUE
+ Flaw_FgUnchanged = FALSE
  Menu = "full"
  EmitAll = FALSE
 SPECIFICATION Spec
